@@ -25,6 +25,9 @@ pub enum Probe {
     Belief { user: u8, pool: u16, offer: u8, ask: u8, amt: Amt, belief_ppm: u32, extra_tols: Vec<u64> },
     /// two-asset deposit: exact pool proportion (off_ppm = 0) or off by off_ppm, tolerances descending
     Deposit { user: u8, pool: u16, mult_ppm: u32, off_ppm: i32, extra_tols: Vec<u64> },
+    /// route through constant-product pools with max_slippage from a tolerance list (every hop is
+    /// subject to the same protection, default and cap as a direct swap)
+    RouteTol { user: u8, first_pool: u16, first_offer: u8, hops: Vec<(u16, u8)>, amt: Amt, extra_tols: Vec<u64> },
     /// route with minimum_receive = quote + {+1, 0, -1}, strictest first
     RouteMin { user: u8, first_pool: u16, first_offer: u8, hops: Vec<(u16, u8)>, amt: Amt },
 }
@@ -55,6 +58,8 @@ fn probe_strat() -> impl Strategy<Value = Probe> {
             .prop_map(|(user, pool, mult_ppm, off_ppm, extra_tols)| Probe::Deposit { user, pool, mult_ppm, off_ppm, extra_tols }),
         2 => (0u8..4, any::<u16>(), 0u8..4, proptest::collection::vec((any::<u16>(), 0u8..3), 0..4), amt_strat())
             .prop_map(|(user, first_pool, first_offer, hops, amt)| Probe::RouteMin { user, first_pool, first_offer, hops, amt }),
+        3 => (0u8..4, any::<u16>(), 0u8..4, proptest::collection::vec((any::<u16>(), 0u8..3), 0..3), amt_strat(), tols())
+            .prop_map(|(user, first_pool, first_offer, hops, amt, extra_tols)| Probe::RouteTol { user, first_pool, first_offer, hops, amt, extra_tols }),
     ]
 }
 
@@ -422,13 +427,17 @@ impl Protections {
                     let omt = big(DEC18 - tv);
                     let c1 = &da * &omt * &pb <= &pa * &db * big(DEC18);
                     let c2 = &db * &omt * &pa <= &pb * &da * big(DEC18);
-                    // band: the contract floors each ratio at 18 digits
-                    let band = |l: &BigUint, r: &BigUint| -> bool {
-                        // |l - r| <= 4e-18 relative to r, or ratios beyond 18-digit resolution
-                        let diff = if l > r { l - r } else { r - l };
-                        diff * big(DEC18) / big(4) <= r.clone() || (&pa * big(DEC18) < pb) || (&pb * big(DEC18) < pa) || (&da * big(DEC18) < db) || (&db * big(DEC18) < da)
+                    // band: the contract floors each ratio (and the product) at 18 digits, i.e. loses up
+                    // to 2e-18 ABSOLUTE on each side of a comparison: a/b*(1-t) vs c/d is decided only
+                    // when the exact values differ by more than 2e-18
+                    let near_abs = |an: &BigUint, ad: &BigUint, cn: &BigUint, cd: &BigUint| -> bool {
+                        // |an/ad * omt/1e18 - cn/cd| <= 2e-18  <=>  |an*omt*cd - cn*ad*1e18| * 1e18 <= 2 * ad*cd*1e18
+                        let l = an * &omt * cd;
+                        let r = cn * ad * big(DEC18);
+                        let diff = if l > r { &l - &r } else { &r - &l };
+                        diff <= big(2) * ad * cd
                     };
-                    let near = band(&(&da * &omt * &pb), &(&pa * &db * big(DEC18))) || band(&(&db * &omt * &pa), &(&pb * &da * big(DEC18)));
+                    let near = near_abs(&da, &db, &pa, &pb) || near_abs(&db, &da, &pb, &pa);
                     if !near {
                         if (c1 && c2) != a.ok {
                             return Err(format!(
@@ -465,6 +474,132 @@ impl Protections {
                 rejected_at = Some(rejected_at.map(|r| r.max(tv)).unwrap_or(tv));
             }
             st.bump("deposit attempts rejected by the protection (state verified unchanged)");
+        }
+        Ok(())
+    }
+
+    /// routed swaps over constant-product pools: each hop must pass the same slippage test as a
+    /// direct swap (default 1%, never more than 50%)
+    #[allow(clippy::too_many_arguments)]
+    fn run_route_tol(&self, sim: &mut Sim, user: u8, first_pool: u16, first_offer: u8, hops: &[(u16, u8)], amt: &Amt, extra: &[u64], ascending: bool, st: &mut Stats) -> Result<(), String> {
+        let obs = sim.obs();
+        let cps: Vec<&PoolView> = obs.pools.values().filter(|p| p.all_reserves_positive() && matches!(p.kind, Kind::Cp)).collect();
+        if cps.is_empty() {
+            return Ok(());
+        }
+        let p0 = cps[pick(first_pool, cps.len())].clone();
+        let oi = first_offer as usize % 2;
+        let mut chain: Vec<(PoolView, usize, usize)> = vec![(p0.clone(), oi, 1 - oi)];
+        let mut cur = p0.denoms[1 - oi].clone();
+        let mut used = vec![p0.id.clone()];
+        for (pp, _) in hops.iter() {
+            let cands: Vec<&&PoolView> = cps.iter().filter(|p| p.idx(&cur).is_some() && !used.contains(&p.id)).collect();
+            if cands.is_empty() {
+                break;
+            }
+            let p = (*cands[pick(*pp, cands.len())]).clone();
+            let ii = p.idx(&cur).unwrap();
+            cur = p.denoms[1 - ii].clone();
+            used.push(p.id.clone());
+            chain.push((p, ii, 1 - ii));
+        }
+        let sender = sim.user(user);
+        let amount = amt.resolve(p0.reserves[oi]).min(10u128.pow(33));
+        if amount == 0 || sim.w.balance(&sender, &p0.denoms[oi]) < amount {
+            return Ok(());
+        }
+        let ops: Vec<pm::SwapOperation> = chain
+            .iter()
+            .map(|(p, i, j)| pm::SwapOperation::MantraSwap { token_in_denom: p.denoms[*i].clone(), token_out_denom: p.denoms[*j].clone(), pool_identifier: p.id.clone() })
+            .collect();
+        // boundary: the largest per-hop ratio, read from the per-hop simulations
+        let mut boundary: Option<u128> = None;
+        {
+            let mut a = amount;
+            for (p, i, j) in chain.iter() {
+                match sim.w.simulate(&p.id, coin(a, &p.denoms[*i]), &p.denoms[*j]) {
+                    Ok(q) => {
+                        let tot = q.return_amount.u128() + q.slippage_amount.u128();
+                        if tot > 0 {
+                            let r = exact::to_u128(&(big(q.slippage_amount.u128()) * big(DEC18) / big(tot)));
+                            boundary = Some(boundary.map(|b| b.max(r)).unwrap_or(r));
+                        }
+                        a = q.return_amount.u128();
+                    }
+                    Err(_) => return Ok(()),
+                }
+            }
+        }
+        let list = Self::swap_tolerances(extra, boundary, ascending);
+        let mut rejected_at: Option<u128> = None;
+        for (setting, eff) in list {
+            let what = format!(
+                "route of {} constant-product hop(s) {:?} offering {amount} {} with max_slippage {:?}",
+                chain.len(),
+                chain.iter().map(|(p, _, _)| format!("{}{:?}", p.id, p.reserves)).collect::<Vec<_>>(),
+                p0.denoms[oi],
+                setting.map(|d| d.to_string())
+            );
+            // per-hop exact decisions
+            let mut a = amount;
+            let mut all_accept = true;
+            let mut any_reject = false;
+            let mut infos = vec![];
+            for (p, i, j) in chain.iter() {
+                let (dec, info) = cp_swap_decision(p, *i, *j, a, eff);
+                infos.push(info);
+                match dec {
+                    Decision::MustAccept => {}
+                    Decision::MustReject => {
+                        any_reject = true;
+                        all_accept = false;
+                        break;
+                    }
+                    Decision::Either => {
+                        all_accept = false;
+                        break;
+                    }
+                }
+                let (x, y) = (p.reserves[*i], p.reserves[*j]);
+                let gross = exact::to_u128(&(big(y) * big(a) / (big(x) + big(a))));
+                let fee_sum: u128 = fee_floor(gross, p.swap_fee) + fee_floor(gross, p.protocol_fee) + fee_floor(gross, p.burn_fee) + p.extra_fees.iter().map(|s| fee_floor(gross, *s)).sum::<u128>();
+                a = gross - fee_sum;
+                if a == 0 {
+                    all_accept = false;
+                    break;
+                }
+            }
+            let (o2, s2, d2) = (ops.clone(), sender.clone(), p0.denoms[oi].clone());
+            let at = attempt(sim, &what, |s| {
+                s.w.pm_exec(&s2, &pm::ExecuteMsg::ExecuteSwapOperations { operations: o2, minimum_receive: None, receiver: None, max_slippage: setting }, &[coin(amount, d2)])
+            })?;
+            if !at.ok && !protection_reason(&at.err) {
+                st.bump("route attempts refused for other reasons");
+                return Ok(());
+            }
+            if at.ok {
+                if let Some(r) = rejected_at {
+                    if r >= eff && !ascending {
+                        return Err(format!("[C13] {what}: accepted, although the same route was rejected with the larger effective tolerance {r}e-18"));
+                    }
+                }
+            }
+            if all_accept && !at.ok {
+                return Err(format!("[C13] {what}: rejected ({}) although every hop is within the tolerance ({:?})", at.err, infos));
+            }
+            if any_reject && at.ok {
+                return Err(format!("[C13] {what}: executed although a hop's price impact plus fees exceed the effective tolerance {eff}e-18 ({:?})", infos));
+            }
+            if all_accept || any_reject {
+                st.bump("cp route attempts decided");
+            }
+            if at.ok {
+                st.bump("route tolerance sequences ending in an acceptance");
+                st.mark();
+                return Ok(());
+            }
+            rejected_at = Some(rejected_at.map(|r| r.max(eff)).unwrap_or(eff));
+            st.bump("route attempts rejected by the protection (state verified unchanged)");
         }
         Ok(())
     }
@@ -574,6 +709,7 @@ impl Engine for Protections {
                 Probe::Belief { user, pool, offer, ask, amt, belief_ppm, extra_tols } => self.run_swap(&mut sim, *user, *pool, *offer, *ask, amt, Some(*belief_ppm), extra_tols, asc, st)?,
                 Probe::Deposit { user, pool, mult_ppm, off_ppm, extra_tols } => self.run_deposit(&mut sim, *user, *pool, *mult_ppm, *off_ppm, extra_tols, asc, st)?,
                 Probe::RouteMin { user, first_pool, first_offer, hops, amt } => self.run_route(&mut sim, *user, *first_pool, *first_offer, hops, amt, st)?,
+                Probe::RouteTol { user, first_pool, first_offer, hops, amt, extra_tols } => self.run_route_tol(&mut sim, *user, *first_pool, *first_offer, hops, amt, extra_tols, asc, st)?,
             }
         }
         Ok(())
@@ -586,7 +722,7 @@ pub fn check(tier: Tier, seed: u64) -> PropReport {
         tier,
         seed,
         "exploration",
-        "cases = world configuration x 1-3 funded pools of both types x 0-7 generated prefix operations x 1-3 probes. A probe sends one message repeatedly with an ASCENDING (boundary-focused) or DESCENDING (monotonicity-focused) list of tolerances (a rejection must leave the complete snapshot unchanged, so the same state is probed again; the first acceptance ends the list): swaps with max_slippage in {none, 0, the state's own slippage ratio -1e-18/+0/+1e-18 (read from Simulation), generated values, 0.5, 0.5+1e-18, 1, 1.5}; swaps with a belief price at 0.8-1.3x the quoted price; two-asset deposits in exact pool proportion (k x reserves/gcd) or off by a chosen ratio with liquidity_max_slippage in {none, 1, 1+1e-18, 0.5, 0.01, 0, generated}; routes of 1-5 hops with minimum_receive = quote +1, +0, -1. oracles: constant-product swap accepted iff (E - net)/E <= min(tol or 1%, 50%) with E = floor(offer x reserve ratio) in exact rationals (indifference band for the contract's 18-digit price rounding); belief price: accepted iff net >= floor(offer/belief) x (1 - tol); route executed iff quote >= minimum, and delivers >= minimum; constant-product deposit accepted iff both ratio tests of the documented predicate hold (band 4e-18), tolerance > 1 refused, no tolerance never rejects; every pool type: acceptance is monotone in the effective tolerance along the descending lists, an exact-proportion deposit is accepted under every valid tolerance; stableswap swaps: an acceptance implies the loss against the exact pre-trade marginal price (from the exact invariant) is within the tolerance. non-trivial = sequence ending in an acceptance after the checks above; distinct by the generated case",
+        "cases = world configuration x 1-3 funded pools of both types x 0-7 generated prefix operations x 1-3 probes. A probe sends one message repeatedly with an ASCENDING (boundary-focused) or DESCENDING (monotonicity-focused) list of tolerances (a rejection must leave the complete snapshot unchanged, so the same state is probed again; the first acceptance ends the list): swaps with max_slippage in {none, 0, the state's own slippage ratio -1e-18/+0/+1e-18 (read from Simulation), generated values, 0.5, 0.5+1e-18, 1, 1.5}; swaps with a belief price at 0.8-1.3x the quoted price; routes of 1-3 constant-product hops with the same max_slippage lists (every hop decided exactly); two-asset deposits in exact pool proportion (k x reserves/gcd) or off by a chosen ratio with liquidity_max_slippage in {none, 1, 1+1e-18, 0.5, 0.01, 0, generated}; routes of 1-5 hops with minimum_receive = quote +1, +0, -1. oracles: constant-product swap accepted iff (E - net)/E <= min(tol or 1%, 50%) with E = floor(offer x reserve ratio) in exact rationals (indifference band for the contract's 18-digit price rounding); belief price: accepted iff net >= floor(offer/belief) x (1 - tol); route executed iff quote >= minimum, and delivers >= minimum; constant-product deposit accepted iff both ratio tests of the documented predicate hold (decided when the exact ratios differ by more than 2e-18, the contract's resolution), tolerance > 1 refused, no tolerance never rejects; every pool type: acceptance is monotone in the effective tolerance along the descending lists, an exact-proportion deposit is accepted under every valid tolerance; stableswap swaps: an acceptance implies the loss against the exact pre-trade marginal price (from the exact invariant) is within the tolerance. non-trivial = sequence ending in an acceptance after the checks above; distinct by the generated case",
     );
     rep.assumptions = vec!["contracts run natively inside cw-multi-test; a rejected message leaving the snapshot unchanged is verified on every attempt, which is what makes re-probing the same state sound".into()];
     let cases = match tier {
@@ -601,6 +737,7 @@ pub fn check(tier: Tier, seed: u64) -> PropReport {
     rep.floor("swap sequences ending in an acceptance", cases / 4);
     rep.floor("belief-price attempts decided", cases / 10);
     rep.floor("cp deposit attempts decided", cases / 10);
+    rep.floor("cp route attempts decided", cases / 10);
     rep.floor("exact-proportion deposits accepted", cases / 50);
     rep.floor("routes accepted at minimum_receive == quote", cases / 20);
     rep.floor("multi-hop routes at the minimum_receive boundary", cases / 100);
